@@ -1,8 +1,14 @@
 """C12 — the read block size never changes what is printed.
 
-A. Coq: Props/C12.v (reader_core_bs_independent + block-arithmetic lemmas).
+A. Coq: Props/C12.v (reader_core_bs_independent + block-arithmetic lemmas; the COMPLETE block-zero
+   acceptance analysis: gate_accept_spec / gate_independent outside four decidable classes, EZCHECK
+   soundness, the analysis as coded on the regenerated row table; refuted witnesses F3a..F3d).
 B. tie: in-process readers vs the Coq model at many block sizes (the C02 correspondence on a
-   fresh sample, block sizes 1..70).
+   fresh sample, block sizes 1..70); the block-zero analysis in-process (SyslogProcessor stage 0+1:
+   result, chosen row + final count, regex_captures_attempted, the nine EZCHECK counters, parse-LRU
+   misses; first pass on a bare SyslineReader: found, per-row counts) vs Model/Gate.v gate2 as coded
+   (vm_compute) on uniform and MIXED-notation block-zero contents in seven notations; python class
+   predicates vs Model/GateSpec.v.
 C. failing-input search:
    (1) in-process, EXHAUSTIVE for the stated bound: every file that is a sequence of at most K
        tokens over {dated head "2020-01-01T00:00:01 |", newline, "x", "yz"}, at EVERY block size
@@ -12,9 +18,10 @@ C. failing-input search:
        prints at the default.  Differences inside the three recorded classes of the block-zero
        acceptance gate are known findings; any other difference is a violation.
 """
-import itertools, json, os
+import itertools, json, os, time
 import vlib
 import lines_util as U
+import gate_util as G
 import c02 as C02
 
 PROP_FILE = "Props/C12.v"
@@ -45,21 +52,130 @@ def small_files(k_exh, rng, n_extra, k_extra):
     return files, extra
 
 
+def gate2_stage(ctx, rng, scratch, cdir, gconsts, nfiles):
+    """B for the complete block-zero analysis.  Returns coverage numbers."""
+    res = dict(cases=0, files=0, dis=0, hist={}, classes={}, mixed=0, second_pass=0, ez_checked=0)
+    files = [(G.witness_f3d(), "witness F3d")]
+    for key in ("F3a", "F3b", "F3c"):
+        files.append((U.witnesses()[key][0], "witness " + key))
+    files += G.gate_files(rng, nfiles)
+    orc, oerr = G.oracle_for([f for f, _ in files], scratch)
+    if orc is None:
+        ctx.obligation_broken("correspondence", "harness c12 run (oracle)", oerr)
+        return res
+    # the hypotheses of the EZCHECK theorems, on every observed match
+    rows = json.load(open(os.path.join(vlib.ROOT, "coq", "Gen", "datetime_tables.json")))["rows"]
+    y4 = {r["index"]: r["year"] == "Y_Y" for r in rows}
+    for l, ms in orc.items():
+        for row, se, dt, _ in ms:
+            sl = l[:se]
+            res["ez_checked"] += 1
+            d2 = any(48 <= sl[i] <= 57 and 48 <= sl[i + 1] <= 57 for i in range(len(sl) - 1))
+            if dt is None or not d2 or (y4.get(row) and not (b"1" in sl or b"2" in sl)):
+                ctx.failure(dict(line_hex=l.hex(), row=row, slice_end=se, note="EZCHECK hypothesis"),
+                            "a match of the row contains two consecutive digits (and '1' or '2' when the row has a four-digit year)",
+                            "row %d matches a slice without them (or panicked)" % row, [])
+    s = G.GSession()
+    plan = []
+    for f, note in files:
+        if not f:
+            continue
+        s.add("F\t" + f.hex())
+        sizes = [64, 65, 100, 127, 128, 256, 4096, 8096, 65536]
+        pick = rng.sample(sizes, 3)
+        if note.startswith("witness"):
+            pick = [64, 128, 4096, 65536]
+        elif len(f) >= U.SYSLOG_SZ_MAX:
+            pick = [rng.choice([64, 128, 4096]), 8096, 65536]
+        for bs in pick:
+            plan.append((f, note, bs, s.add("G\t%d" % bs), s.add("P\t%d" % bs)))
+    out, err = s.run(scratch)
+    if out is None:
+        ctx.obligation_broken("correspondence", "harness c12 run (analysis)", err)
+        return res
+    cases = []
+    for f, note, bs, gi, pi in plan:
+        g, p = G.parse_G(out[gi]), G.parse_P(out[pi])
+        if g.get("broken") or g["result"] not in G.GATE_CODES:
+            if g["result"] == "PANIC" or g["result"] not in ("ErrNew",):
+                ctx.obligation_broken("correspondence", "process_stage1_blockzero_analysis answered %s" % g["result"],
+                                      json.dumps(dict(file_hex=f.hex()[:4000], blocksz=bs, note=note)))
+            continue
+        if p.get("broken"):
+            p = dict(found=0, patterns=[], attempted=0, broken=True)
+        res["hist"][g["result"]] = res["hist"].get(g["result"], 0) + 1
+        cases.append((bs, f, orc, g, p, note))
+    res["cases"] = len(cases)
+    res["files"] = len(files)
+    if not cases:
+        return res
+    idx = list(range(len(cases)))
+    shards = vlib.shard(idx, vlib.NCPU)
+    texts = [G.coq_gate2_cases([cases[i][:5] for i in sh]) for sh in shards]
+    ev = vlib.coq_eval_shards(os.path.join(cdir, "gate2"), texts)
+    for sh, (rc, o) in zip(shards, ev):
+        trip = vlib.parse_eval_pairs(o) if rc == 0 else None
+        if trip is None or len(trip) != len(sh):
+            ctx.obligation_broken("correspondence", "model evaluation (complete block-zero analysis, coqc on cases)", o)
+            return res
+        for k, code, cb in trip:
+            bs, f, orc_, g, p, note = cases[sh[k]]
+            if p.get("broken"):
+                code &= ~(32 | 64)
+            pyb = G.class_bits(f, orc, bs, gconsts)
+            sa = G.spec_accept(f, orc, gconsts)
+            py_cb = pyb + (0 if sa is None else 8 + 1000 * (sa + 1))
+            for b_, n_ in ((1, "first-dated-incomplete"), (2, "count-minimum"), (4, "mixed-notation")):
+                if cb & b_:
+                    res["classes"][n_] = res["classes"].get(n_, 0) + 1
+            if cb & 4:
+                res["mixed"] += 1
+            if len(p["patterns"]) > 1:
+                res["second_pass"] += 1
+            if code:
+                res["dis"] += 1
+                if res["dis"] <= 3:
+                    ctx.obligation_broken("correspondence", "SyslogProcessor block-zero analysis vs Model.Gate.gate2: " + "; ".join(G.bit_names(code)),
+                                          json.dumps(dict(file_hex=f.hex()[:4000], file_len=len(f), blocksz=bs, note=note, code=code,
+                                                          impl=dict(result=g["result"], patterns=g["patterns"], attempted=g["attempted"], ez=g["ez"],
+                                                                    lru=g["lru"], pass1=p))))
+            if py_cb != cb:
+                res["dis"] += 1
+                ctx.obligation_broken("correspondence", "python class predicates (gate_util.class_bits / spec_accept) vs Model/GateSpec.v",
+                                      json.dumps(dict(file_hex=f.hex()[:4000], blocksz=bs, python=py_cb, coq=cb, note=note)))
+            # the proved theorem, observed: outside the classes the implementation accepts exactly spec_accept with that row
+            if not (cb & 7) and 64 <= bs:
+                impl_acc = g["patterns"][0][0] if (g["result"] == "FileOk" and len(g["patterns"]) == 1) else None
+                if impl_acc != sa:
+                    ctx.failure(dict(file_hex=f.hex() if len(f) <= 4096 else None, file_len=len(f), blocksz=bs, note=note, inprocess=True),
+                                "accepted with row %s (spec_accept, bs-free)" % sa,
+                                "%s, patterns %s" % (g["result"], g["patterns"]), [])
+    return res
+
+
 def run(ctx):
     quick = ctx.quick()
     rng = ctx.rng
+    t_stage = {}
+    t0 = time.time()
     consts = U.consts_from_repo()
     if consts.get("SYSLOG_SZ_MAX") != U.SYSLOG_SZ_MAX or consts.get("BLOCKSZ_DEF") != U.BLOCKSZ_DEF:
         ctx.obligation_broken("translator", "constants used by the class predicates changed", json.dumps(consts))
     # ---- A
-    vlib.proof_stage(ctx, PROP_FILE, ["blocks"], extra_targets=["Corr/C02.vo", "Props/C02.vo"])
+    vlib.proof_stage(ctx, PROP_FILE, ["blocks", "datetime"], extra_targets=["Corr/C02.vo", "Props/C02.vo", "Corr/C12.vo"])
     okh, logh = vlib.build_harness("c02")
+    okg, logg = vlib.build_harness("c12")
     oks, logs = vlib.build_s4()
-    if not okh or not oks:
-        ctx.obligation_broken("build", "harness c02" if not okh else "s4 binary", (logh if not okh else logs))
+    if not okh or not oks or not okg:
+        ctx.obligation_broken("build", "harness c02" if not okh else "harness c12" if not okg else "s4 binary",
+                              (logh if not okh else logg if not okg else logs))
         return ctx.finish()
+    gconsts = G.consts_from_gen()
+    if gconsts.get("datetime_str_min") != G.DATETIME_STR_MIN or gconsts.get("syslog_sz_max") != U.SYSLOG_SZ_MAX:
+        ctx.obligation_broken("translator", "constants used by the python class predicates differ from coq/Gen/BlockConsts.v", json.dumps(gconsts))
     scratch = vlib.scratch_dir("C12")
     cdir = os.path.join(vlib.CACHE, "cases", "C12")
+    t_stage["A proofs+builds"] = round(time.time() - t0, 1); t0 = time.time()
 
     # ---- B: model correspondence at many block sizes
     cases = C02.inproc_cases(rng, 120 if quick else 2500)
@@ -81,10 +197,11 @@ def run(ctx):
                                   json.dumps(dict(file_hex=f.hex(), blocksz=bs, ops=[list(x) for x in ops], op_index=k % 1000,
                                                   code=c, impl=repr(answers[ci]), disagreements=len(bad))))
 
+    t_stage["B readers vs model"] = round(time.time() - t0, 1); t0 = time.time()
     # ---- B (gate model): process_stage1_blockzero_analysis vs Model/Gate.v at permitted sizes
     gs = U.Session()
     gidx = []
-    for k in range(150 if quick else 2500):
+    for k in range(90 if quick else 2500):
         hint = rng.choice([64, 64, 128, 16, 32])
         f, tab, lines = U.gen_file(rng, hint, nmsg=rng.choice([0, 1, 2, 3, 5]), wild=rng.random() < 0.5,
                                    maxlen=rng.choice([None, 40, 200]))
@@ -124,6 +241,11 @@ def run(ctx):
                                   json.dumps(dict(file_hex=f.hex()[:4000], file_len=len(f), blocksz=bs, impl_code=code, model_code=c,
                                                   disagreements=len(gbad))))
 
+    t_stage["B single-oracle gate"] = round(time.time() - t0, 1); t0 = time.time()
+    # ---- B (complete analysis): SyslogProcessor stage 0+1 and its counters vs Model/Gate.v gate2 as coded
+    g2 = gate2_stage(ctx, rng, scratch, cdir, gconsts, 90 if quick else 1500)
+
+    t_stage["B complete analysis"] = round(time.time() - t0, 1); t0 = time.time()
     # ---- C1: exhaustive small files, every block size, in-process
     K = 3 if quick else 5
     exh, extra = small_files(K, rng, 40 if quick else 300, K + 3)
@@ -165,6 +287,7 @@ def run(ctx):
                             ctx.failure(dict(file_hex=all_small[fi].hex(), blocksz=bs, op=[kind, fo], reference_blocksz=REF_BS),
                                         repr(ref[(fi, kind, fo)]), repr(canon(kind, a)), [])
 
+    t_stage["C1 exhaustive in-process"] = round(time.time() - t0, 1); t0 = time.time()
     # ---- C2: the binary at every permitted size class vs the default
     files = []
     for key in ("F3a", "F3b", "F3c"):
@@ -180,6 +303,13 @@ def run(ctx):
         head = U.ts(0) + b" |first\n"
         tab = dict(tab); tab[head] = U.instant(0)
         files.append((head + f, tab, "accepted-domain", BIN_BS if not quick else rng.sample(BIN_BS, 4)))
+    # uniform files in the other notations and MIXED-notation files (F3d class), incl. the F3d witness
+    cdir_corpus = os.path.join(vlib.ROOT, "corpus", "C12")
+    for name in sorted(os.listdir(cdir_corpus)) if os.path.isdir(cdir_corpus) else []:
+        if name.endswith(".log"):
+            files.append((open(os.path.join(cdir_corpus, name), "rb").read(), None, "corpus/C12/" + name, [64, 128, 4096, 0xFFFFFF]))
+    for f, note in G.gate_files(rng, 14 if quick else 200):
+        files.append((f, None, "gate:" + note, [64, 128, 4096] if quick else BIN_BS))
     if not quick:
         for k in range(4):
             f, tab, lines = U.gen_file(rng, 0x10000, nmsg=4, lead=0, wild=True)
@@ -208,22 +338,33 @@ def run(ctx):
             if rc == 124 or o != out0 or rc != rc0:
                 bin_diff += 1
                 cls = []
-                if o == b"" and out0 != b"":
-                    cls = U.gate_classes(f, tab, bs)
-                elif out0 == b"" and o != b"":
-                    cls = U.gate_classes(f, tab, U.BLOCKSZ_DEF)
+                # classes from the per-row oracle of the real patterns (harness c12 `M` on the file's lines)
+                orc, oerr = G.oracle_for([f], scratch)
+                if orc is None:
+                    ctx.obligation_broken("correspondence", "harness c12 run (oracle of a differing file)", oerr)
+                    orc = {}
+                if rc != 124 and rc == rc0:
+                    if o == b"" and out0 != b"":
+                        cls = G.class_names(f, orc, bs, gconsts)
+                    elif out0 == b"" and o != b"":
+                        cls = G.class_names(f, orc, U.BLOCKSZ_DEF, gconsts)
+                    else:
+                        # both sizes print, differently: only a different CHOSEN ROW (F3d) explains it
+                        cls = [c for c in set(G.class_names(f, orc, bs, gconsts) + G.class_names(f, orc, U.BLOCKSZ_DEF, gconsts))
+                               if c == G.CLASS_F3D]
                 ctx.failure(dict(file_hex=f.hex() if len(f) <= 4096 else None, file_len=len(f), note=note, blocksz=bs,
-                                 dated={k_.hex(): v for k_, v in list(tab.items())[:8]}, replay_file=path),
+                                 dated={k_.hex(): v for k_, v in list((tab or {}).items())[:8]}, replay_file=path),
                             "stdout at the default block size: rc=%s, %d bytes" % (rc0, len(out0)),
                             "stdout at --blocksz %d: rc=%s, %d bytes" % (bs, rc, len(o)), cls)
         if not ctx.failures:
             os.remove(path)
 
+    t_stage["C2 binary"] = round(time.time() - t0, 1)
     for fi, bs, row in plan:
         if bs != REF_BS:
             nontrivial.add((bs, all_small[fi]))
     ctx.coverage.update(
-        evaluations=n_ops_b + len(gate_cases) + c1_ops + bin_runs,
+        evaluations=n_ops_b + len(gate_cases) + g2["cases"] + c1_ops + bin_runs,
         distinct_nontrivial=len(nontrivial),
         exhaustive=(out is not None),
         rule="(1) in-process, exhaustive: ALL %d files that are sequences of 0..%d tokens over {\"2020-01-01T00:00:01 |\", newline, \"x\", \"yz\"} "
@@ -238,10 +379,14 @@ def run(ctx):
         inprocess_blocksizes=len(bs_seen), inprocess_differences=c1_diff,
         model_operations=n_ops_b, model_disagreements=model_dis,
         gate_model_cases=len(gate_cases), gate_model_disagreements=gate_dis, gate_result_histogram=gate_hist,
-        binary_runs=bin_runs, binary_files=len(files), binary_differences=bin_diff)
+        gate2_cases=g2["cases"], gate2_files=g2["files"], gate2_disagreements=g2["dis"], gate2_result_histogram=g2["hist"],
+        gate2_class_histogram=g2["classes"], gate2_mixed_cases=g2["mixed"], gate2_second_pass_cases=g2["second_pass"],
+        gate2_ezcheck_matches_checked=g2["ez_checked"], gate2_notations=[nf.__name__ for nf in G.NOTATIONS],
+        binary_runs=bin_runs, binary_files=len(files), binary_differences=bin_diff, stage_seconds=t_stage)
     ctx.assumptions += [
         "`dated` oracle and unmodelled caches as for C02",
-        "the block-zero acceptance gate is outside the proved core; its three block-size dependent classes are the known findings F3a, F3b, F3c (class predicates: lines_util.gate_classes)",
+        "block-zero acceptance: per-row / per-slice match oracle (the regex engine); the EZCHECK theorems assume that a match of a row with a four-digit year contains '1' or '2' and a match of a row with a two-digit field contains two consecutive digits (validated on every observed match of the run); check_store of find_sysline_in_block is not modelled (it always misses in the call sequence of the analysis)",
+        "the four block-size dependent classes of the acceptance analysis are the known findings F3a, F3b, F3c, F3d (class predicates: gate_util.class_names = Model/GateSpec.v, cross-checked on every B case)",
         "block sizes above |f|+2 behave as one block (the file is a single short block): sampled at 0x10000 in-process and up to 0xFFFFFF on the binary",
     ]
     return ctx.finish()
@@ -249,7 +394,7 @@ def run(ctx):
 
 def replay(ctx, path):
     r = json.load(open(path))
-    vlib.build_harness("c02"); vlib.build_s4()
+    vlib.build_harness("c02"); vlib.build_harness("c12"); vlib.build_s4()
     scratch = vlib.scratch_dir("C12r")
     rc_all = 0
     for fl in r.get("failures", []):
@@ -257,7 +402,20 @@ def replay(ctx, path):
         if c.get("file_hex") is None:
             print("replay: file not embedded (len %s); see %s" % (c.get("file_len"), c.get("replay_file")))
             continue
+        if c.get("note") == "EZCHECK hypothesis":
+            gs = G.GSession(); gs.add("M\t" + c["line_hex"])
+            out, err = gs.run(scratch)
+            print("replay oracle of line %s: %s" % (c["line_hex"], out[0] if out else err))
+            rc_all = 1
+            continue
         f = bytes.fromhex(c["file_hex"])
+        if c.get("inprocess"):
+            gs = G.GSession(); gs.add("F\t" + f.hex()); gs.add("G\t%d" % c["blocksz"]); gs.add("G\t%d" % REF_BS)
+            out, err = gs.run(scratch)
+            print("replay in-process block-zero analysis: --blocksz %d -> %s ; %d -> %s ; expected %s" %
+                  (c["blocksz"], out[1] if out else err, REF_BS, out[2] if out else err, fl.get("expected")))
+            rc_all = 1
+            continue
         if "op" in c:
             s = U.Session()
             s.add("F\t" + f.hex())
